@@ -137,4 +137,15 @@ Definition src_offsets (c : scalecfg) (sw sh w h x y : Z) : list Z :=
   let off2 := 4 * (per_row c sw sh w h * y + per_column c sw sh w h * x) in
   [off2; off2 + horiz_off c sw sh w h; off2 + vert_off c sw sh w h; off2 + vert_off c sw sh w h + horiz_off c sw sh w h].
 Definition texel_off (w x y : Z) : Z := 4 * (w * y + x).
+
+(** The bilinear branch: [dest[off + ch] = (sum of src[off2 + ch (+ horiz_off) (+ vert_off)]) // div], the addends
+    given as (uses horiz_off, uses vert_off) pairs read from the source. *)
+Definition term_off (c : scalecfg) (sw sh w h : Z) (t : bool * bool) : Z :=
+  (if fst t then horiz_off c sw sh w h else 0) + (if snd t then vert_off c sw sh w h else 0).
+Definition bilinear (c : scalecfg) (terms : list (bool * bool)) (div : Z) (src : Z -> Z) (sw sh w h x y ch : Z) : Z :=
+  let off2 := 4 * (per_row c sw sh w h * y + per_column c sw sh w h * x) in
+  fold_right Z.add 0 (map (fun t => src (off2 + ch + term_off c sw sh w h t)) terms) / div.
+Definition terms_eqb (a b : list (bool * bool)) : bool :=
+  Nat.eqb (length a) (length b) && forallb (fun p => Bool.eqb (fst (fst p)) (fst (snd p)) && Bool.eqb (snd (fst p)) (snd (snd p))) (combine a b).
+Definition block_terms : list (bool * bool) := [(false, false); (true, false); (false, true); (true, true)].
 End Scale.
